@@ -232,7 +232,9 @@ class EngineBase:
         if n in st.env:
             return [Res(st, st.env[n])]
         if n in self.freevars:
-            a = st.envref
+            a = st.ghost["outer_env"]
+            for _ in range(getattr(self, "free_depth", {}).get(n, 1) - 1):
+                a = Val.a(st.fld("cell:__parent__", a))
             t = st.fld("cell:" + n, a)
             ty = self.spec.cell_types.get(n, ANY) if self.spec else ANY
             return [Res(st, self.typed(st, t, ty) if ty != ANY else SV(t, ANY))]
